@@ -27,7 +27,7 @@ ASSUMPTIONS = [
     "a message is 'rejected' iff its SOME/IP header does not decode (independent decoder), or it is not an SD notification (service/method/interface version/type/return code), or the library's SD decoder raises one of the two permitted errors on its payload",
     "exceptions that the library itself logs and swallows inside its own tasks (log_exceptions) are not counted as escaping",
 ]
-BUDGET = {"quick": {"examples": 12000, "shrink": 250}, "thorough": {"examples": 800000, "shrink": 1500, "extra_shards": 16}}
+BUDGET = {"quick": {"examples": 12000, "shrink": 250}, "thorough": {"examples": 300000, "shrink": 1500, "extra_shards": 16}}
 FUZZ_RUNS = {"quick": 0, "thorough": 400000}
 
 
